@@ -88,6 +88,7 @@ def c08(ctx):
     _g(ctx, verify.run, kinds=['matcher'], opmap=False, simtable=False)
     _g(ctx, mask.run, candset=True, matcher=True)
     _g(ctx, split.run, table=False)
+    _g(ctx, sides.run, only=('py_stringsimjoin/utils/missing_value_handler.py',))
 
 
 def c09(ctx):
